@@ -50,7 +50,7 @@ LABELS = ["x", "y", "z", "X", "Y", "日本"]
 HOSTS = ["h1.local.", "H1.LOCAL.", "h2.local.", None, None]
 V4 = [bytes([10, 0, 0, 1]), bytes([10, 0, 0, 2]), bytes([10, 0, 1, 1])]
 V6 = [bytes([0xFE, 0x80] + [0] * 13 + [1]), bytes([0xFE, 0x80] + [0] * 13 + [2]), bytes([0x20, 0x01, 0x0D, 0xB8] + [0] * 11 + [1])]
-ADDR_SHAPES = ["v4", "v6", "dual", "v4v4", "dup4", "none", "v4v6v6", "dual"]
+ADDR_SHAPES = ["v4", "v6", "dual", "v4v4", "dup4", "none", "v4v6v6", "dual", "dual", "v4v6v6"]
 HOST_TTLS = [120, 120, 10, 121, 1, 0, 4500]
 OTHER_TTLS = [4500, 4500, 60, 61, 2, 1, 0]
 TEXTS = [b"", b"\x03a=1", b"\x03A=1", b"\x06path=/"]
@@ -81,6 +81,9 @@ def gen_svc(rng, name=None, type_=None):
             "addrs": [a.hex() for a in addrs], "ifindex": rng.choice([None, None, None, 3])}
 
 
+ARGS = {}   # id(info) -> (info, fields as the *arguments given* say): constructor arguments, then every attribute write
+
+
 def make_info(spec):
     from zeroconf import ServiceInfo
 
@@ -88,11 +91,17 @@ def make_info(spec):
                        host_ttl=spec["httl"], other_ttl=spec["ottl"], addresses=[bytes.fromhex(a) for a in spec["addrs"]],
                        interface_index=spec.get("ifindex"))
     info.set_server_if_missing()  # what async_register_service does before registry.async_add
+    ARGS[id(info)] = (info, spec_fields(spec))
     return info
 
 
 def fields(info):
-    """the fields of a real ServiceInfo, as plain data (what the model and the oracles are given)"""
+    """What the model and the oracles are told about a ServiceInfo: the values the API was *given* (constructor arguments, then
+    every attribute write), never what the object's own accessors report -- a setter that forgets to replace something must show."""
+    return dict(ARGS[id(info)][1])
+
+
+def fields_actual(info):
     return {"type": info.type, "name": info._name, "server": info.server, "port": info.port, "weight": info.weight, "priority": info.priority,
             "text": info.text, "httl": info.host_ttl, "ottl": info.other_ttl,
             "v4": [a.packed for a in info._ipv4_addresses], "v6": [a.packed for a in info._ipv6_addresses]}
@@ -254,6 +263,7 @@ def oracle(svcs, qs, known, observed, ettl):
 
 class World:
     def __init__(self):
+        ARGS.clear()
         from zeroconf import DNSCache
         from zeroconf._handlers.query_handler import QueryHandler
         from zeroconf._history import QuestionHistory
@@ -540,6 +550,7 @@ def exec_wire(ops, seed):
 
     sim = vsim.Sim(seed)
     steps = []
+    ARGS.clear()
 
     async def main(sim):
         host = sim.make_host("A", "10.0.0.1")
@@ -683,21 +694,32 @@ def exec_wire(ops, seed):
 
 
 def apply_mut(info, mut):
+    """an attribute write through the public surface of ServiceInfo, mirrored on the argument-derived fields"""
     kind, val = mut
+    f = ARGS[id(info)][1]
     if kind == "port":
         info.port = val
+        f["port"] = val
     elif kind == "weight":
         info.weight = val
+        f["weight"] = val
     elif kind == "priority":
         info.priority = val
+        f["priority"] = val
     elif kind == "text":
         info.text = bytes.fromhex(val)
+        f["text"] = bytes.fromhex(val)
     elif kind == "httl":
         info.host_ttl = val
+        f["httl"] = val
     elif kind == "ottl":
         info.other_ttl = val
+        f["ottl"] = val
     elif kind == "addrs":
-        info.addresses = [bytes.fromhex(a) for a in val]
+        a = [bytes.fromhex(x) for x in val]
+        info.addresses = a
+        f["v4"] = [x for x in a if len(x) == 4]
+        f["v6"] = [x for x in a if len(x) == 16]
 
 
 def fixu(t):
@@ -1097,7 +1119,7 @@ def gen_history(rng, nops):
         elif r < 0.60:
             i = rng.choice(list(live))
             s = live[i]
-            kind = rng.choice(["port", "port", "text", "httl", "ottl", "addrs", "weight", "priority"])
+            kind = rng.choice(["port", "port", "text", "httl", "ottl", "addrs", "addrs", "addrs", "weight", "priority"])
             if kind == "port":
                 val = rng.choice([80, 81, 8080, 1])
                 s["port"] = val
